@@ -433,7 +433,12 @@ func (i *Interpreter) ProcessMiss() error {
 
 	var err error
 	if i.ctx.Backend.Director != nil {
-		i.ctx.BackendRequest, err = i.createDirectorRequest(i.ctx, i.ctx.Backend.Director)
+		// The director determines the backend, the following process works with the determined one
+		var determined *value.Backend
+		i.ctx.BackendRequest, determined, err = i.createDirectorRequest(i.ctx, i.ctx.Backend.Director)
+		if err == nil {
+			i.ctx.Backend = determined
+		}
 	} else {
 		i.ctx.BackendRequest, err = i.createBackendRequest(i.ctx, i.ctx.Backend)
 	}
@@ -541,7 +546,12 @@ func (i *Interpreter) ProcessPass() error {
 
 	var err error
 	if i.ctx.Backend.Director != nil {
-		i.ctx.BackendRequest, err = i.createDirectorRequest(i.ctx, i.ctx.Backend.Director)
+		// The director determines the backend, the following process works with the determined one
+		var determined *value.Backend
+		i.ctx.BackendRequest, determined, err = i.createDirectorRequest(i.ctx, i.ctx.Backend.Director)
+		if err == nil {
+			i.ctx.Backend = determined
+		}
 	} else {
 		i.ctx.BackendRequest, err = i.createBackendRequest(i.ctx, i.ctx.Backend)
 	}
